@@ -22,9 +22,11 @@ import assemble as A
 import units as U
 from rtok import tokenize, find_depth0, match_close, is_p, is_id
 
-BUILD = os.path.join(ROOT, 'build')
+_REPO = os.environ.get('VERIF_REPO', '/repo')
+# runs against a scratch copy (self-tests with seeded changes) get their own build directory so that they can run concurrently
+BUILD = os.path.join(ROOT, 'build') if _REPO == '/repo' else os.path.join(ROOT, 'build', 'scratch_' + re.sub(r'\W+', '_', _REPO).strip('_'))
 # evidence of runs against a scratch copy of the repository (VERIF_REPO set by the self-tests) never lands in evidence/
-EVID = os.path.join(ROOT, 'evidence') if os.environ.get('VERIF_REPO', '/repo') == '/repo' else os.path.join(ROOT, 'build', 'evidence_scratch')
+EVID = os.path.join(ROOT, 'evidence') if os.environ.get('VERIF_REPO', '/repo') == '/repo' else os.path.join(BUILD, 'evidence_scratch')
 REPLAY = os.path.join(ROOT, 'replays')
 KNOWN = os.path.join(ROOT, 'known_findings.json')
 
